@@ -16,7 +16,7 @@ else git -C $WT apply "$SRC/patch.diff"; fi
 echo "APPLY: ok" >> $R
 demo_build_run() { # label
   local d=$OUT/$NAME.demo; rm -rf $d; mkdir -p $d; cp -r "$SRC"/* $d/ 2>/dev/null
-  ( cd $d; if [ -f demo.sh ]; then sed -i -E "s#/tmp/(wt|w5|w6|w7)/[A-Za-z0-9]+#$WT#g" demo.sh; timeout 600 bash demo.sh > run.log 2>&1; echo $?; 
+  ( cd $d; if [ -f demo.sh ]; then sed -i -E "s#/tmp/(wt|w5|w6|w7|w8)/[A-Za-z0-9]+#$WT#g" demo.sh; timeout 600 bash demo.sh > run.log 2>&1; echo $?; 
     else g++ -std=c++17 -O1 -g -pthread -I $WT/include demo.cpp -o demo > build.log 2>&1 || { echo BUILDFAIL; exit; }; timeout 600 ./demo > run.log 2>&1; echo $?; fi ) | tail -1
 }
 rc=$(demo_build_run); echo "DEMO-WITH-PATCH: exit=$rc (expected non-zero)" >> $R
